@@ -326,7 +326,10 @@ class Flow:
                     acc = acc | self.eval(a, obj, m, env)
             return acc
         # constructor / class-valued callee
-        classes = self.types.callee_classes(f, obj.cls.module) if not isinstance(f, ast.Attribute) else []
+        if isinstance(f, ast.Attribute) and not (isinstance(f.value, ast.Name) and f.value.id in ("cls", "self") and self.types._class_valued(obj.cls, f.attr)):
+            classes = []
+        else:
+            classes = self.types.callee_classes(f, obj.cls.module, obj.cls)
         if isinstance(f, ast.Name) and f.id in env:
             classes = []
         if classes:
